@@ -179,7 +179,14 @@ func (r *rEnv) roundAs(name string) chan bool {
 		case <-time.After(20 * time.Second):
 			p = "round did not return within 20 s"
 		}
-		lockfree := r.cli.C.VerifTryLock()
+		// the report loop takes the mutex for a moment on every iteration: a lock that was leaked stays held, a
+		// transient holder is gone within microseconds
+		lockfree := false
+		for try := 0; try < 100 && !lockfree; try++ {
+			if lockfree = r.cli.C.VerifTryLock(); !lockfree {
+				time.Sleep(2 * time.Millisecond)
+			}
+		}
 		j := hx.J{"a": "RoundEnd", "ok": ok, "panic": p, "lockfree": lockfree, "dev": r.dev, "files": r.abs.CliFilesJ(r.cli.Dir)}
 		if lockfree {
 			j["state"] = r.abs.CliStateJ(r.cli.C.VerifState())
